@@ -5,7 +5,7 @@
    Strings are `list Z` of bytes.  A numeric value enters as `nval`: sign, is_zero, single/double and the
    table  n |-> Float.to_decimal(n) = (mantissa, exp10)  (n in 0 .. 7 single / 16 double) of its
    absolute value (binary->decimal conversion is property C07's business; everything that is done with
-   the mantissa afterwards is modelled here).  The model follows the code with defects D08a-c fixed.
+   the mantissa afterwards is modelled here).  The model follows the code with defects D08a-d fixed.
    The while-loop of _print_using is modelled as `tokenize` (what is recognised at a stream position
    depends on the position only) followed by passes over the item list.       NO proofs here. *)
 From Coq Require Import ZArith List Bool.
@@ -220,6 +220,12 @@ Definition decimal_notation (digitstr : list Z) (exp10 : Z) (force_dot group : b
   else cDOT :: zeros (- e) ++ digitstr.
 
 (* Float.to_str_scientific(digits_before_radix, digits_after_radix, always_show_radix)  (D08c fixed) *)
+(* the mantissa shown and radix_position, for work_digits = w:
+   renormalisation after a rounding carry, radix_position = exponent + work_digits (regenerated) *)
+Definition sci_pair (v : nval) (w : Z) : res (Z * Z) :=
+  do p <- to_decimal v w;
+  Ok (using_sci_carry w (fst p) (snd p)).
+
 Definition to_str_scientific (v : nval) (db da : Z) (force_dot : bool) : res (list Z) :=
   if nv_zero v then
     if force_dot then Ok (cDOT :: zeros da ++ [exp_sign v; cPLUS; cZERO; cZERO])
@@ -228,29 +234,30 @@ Definition to_str_scientific (v : nval) (db da : Z) (force_dot : bool) : res (li
   else
     let req := db + da in
     let w := using_work_digits (nv_digits v) req in
-    do p <- to_decimal v w;
-    (* renormalisation after a rounding carry, radix_position = exponent + work_digits (regenerated) *)
-    let '(m, radix) := using_sci_carry w (fst p) (snd p) in
-    let digitstr := firstn (Z.to_nat req) (ljust (get_digits m w) (Z.to_nat req) cZERO) in
-    Ok (scientific_notation v digitstr (radix - 1) db force_dot).
+    do mr <- sci_pair v w;
+    let digitstr := firstn (Z.to_nat req) (ljust (get_digits (fst mr) w) (Z.to_nat req) cZERO) in
+    Ok (scientific_notation v digitstr (snd mr - 1) db force_dot).
 
 (* Float.to_str_fixed(n_decimals, force_dot, group_thousands)  (D08a fixed) *)
+(* the (mantissa, exp10) that is shown: full precision, or the working precision n_work if the value has
+   more decimals than the field, or 0 / 1 unit of the last decimal if it is below that unit *)
+Definition fixed_pair (v : nval) (n_dec : Z) : res (Z * Z) :=
+  do p <- to_decimal v (nv_digits v);
+  if - snd p >? n_dec then
+    let n_work := using_n_work (nv_digits v) (- snd p) n_dec in
+    if n_work >? 0 then to_decimal v n_work
+    else Ok (using_round_small (nv_digits v) n_work (fst p) n_dec)
+  else Ok p.
+
 Definition to_str_fixed (v : nval) (n_dec : Z) (force_dot group : bool) : res (list Z) :=
   if nv_zero v then
     if force_dot then Ok (cDOT :: zeros n_dec)
     else if negb (n_dec =? 0) then Ok (zeros n_dec)
     else Ok [cZERO]
   else
-    do p <- to_decimal v (nv_digits v);
-    let '(m0, e0) := p in
-    do q <- (if - e0 >? n_dec then
-               let n_work := using_n_work (nv_digits v) (- e0) n_dec in
-               if n_work >? 0 then to_decimal v n_work
-               else Ok (using_round_small (nv_digits v) n_work m0 n_dec)
-             else Ok p);
-    let '(m, e) := q in
-    let n_after := - e in
-    let ds := dec_str (Z.abs m) in
+    do q <- fixed_pair v n_dec;
+    let n_after := - snd q in
+    let ds := dec_str (Z.abs (fst q)) in
     let n_before := Z.of_nat (length ds) - n_after in
     let digitstr := ljust ds (Z.to_nat (n_dec + n_before)) cZERO in
     Ok (decimal_notation digitstr (n_before - 1) force_dot group).
@@ -281,15 +288,17 @@ Definition sci_before (f : nfield) : Z :=
   if nf_lead_plus f || nf_trail_plus f || nf_trail_minus f then nf_before f
   else using_sci_before (nf_dollar f) (nf_before f).
 
-(* "add leading zero before radix if there's space" *)
+(* "add leading zero before radix if there's space": the radix may be preceded by a sign and/or the
+   currency sign (prefixes '', '+', '-', '$', '+$', '-$'; D08d fixed) *)
 Definition add_leading_zero (valstr : list Z) : list Z :=
-  match valstr with
-  | c :: r =>
-      if c =? cDOT then cZERO :: valstr
-      else if ((c =? cPLUS) || (c =? cMINUS)) && hd_is cDOT r then c :: cZERO :: r
-      else valstr
-  | [] => valstr
-  end.
+  let sign := match valstr with
+              | c :: _ => if (c =? cPLUS) || (c =? cMINUS) then [c] else []
+              | [] => []
+              end in
+  let r1 := skipn (length sign) valstr in
+  let dollar := if hd_is cDOLLAR r1 then [cDOLLAR] else [] in
+  let r2 := skipn (length dollar) r1 in
+  if hd_is cDOT r2 then sign ++ dollar ++ cZERO :: r2 else valstr.
 
 (* the number as text: sign, dollar, digits from the numeric layer, trailing sign *)
 Definition number_text (f : nfield) (v : nval) : res (list Z) :=
